@@ -411,6 +411,7 @@ func run(c *runner.Ctx) {
 	}
 	pairs(c, ks)
 	afterQuotedIn(c, ks)
+	boundSpellings(c, ks)
 }
 
 // pairs: two size rules on one value, collected the way callers collect them (Var's variadic rules, RM.Set called
@@ -547,6 +548,98 @@ func afterQuotedIn(c *runner.Ctx, ks []kindSpec) {
 								} else {
 									c.Outcome("after-quoted-in-ok")
 								}
+							}
+						}
+					}
+				}
+			}
+		}
+	}
+}
+
+// boundSpellings: bounds written with leading zeros are decimal numbers ("010" is ten, "08" is eight); and a size rule
+// behind an empty entry of the rule list (",le=5", "required,,le=5" - what joining rule strings produces) is judged
+// as when it stands alone.
+func boundSpellings(c *runner.Ctx, ks []kindSpec) {
+	for _, k := range ks {
+		if k.name != "int" && k.name != "string" && k.name != "uint8" {
+			continue
+		}
+		vals := k.values
+		if len(vals) > 48 {
+			vals = vals[:48]
+		}
+		for _, r := range rules {
+			c.Space(fmt.Sprintf("bound-spellings/%s/%s", r.name, k.name))
+			for b := 0; b <= 12; b++ {
+				for form := 0; form < 5; form++ {
+					if !c.Take() {
+						continue
+					}
+					lo, hi := b, b+2
+					var rt string
+					switch form {
+					case 0, 3, 4:
+						rt = fmt.Sprintf("%s=%d", r.name, lo)
+						if r.two {
+							rt = fmt.Sprintf("%s=%d~%d", r.name, lo, hi)
+						}
+					case 1:
+						rt = fmt.Sprintf("%s=%02d", r.name, lo)
+						if r.two {
+							rt = fmt.Sprintf("%s=%02d~%03d", r.name, lo, hi)
+						}
+					case 2:
+						rt = fmt.Sprintf("%s=%03d", r.name, lo)
+						if r.two {
+							rt = fmt.Sprintf("%s=%d~%02d", r.name, lo, hi)
+						}
+					}
+					list := rt
+					switch form {
+					case 3:
+						list = "," + rt
+					case 4:
+						list = "phone|p,," + rt + ","
+						if k.name != "string" {
+							list = "noeq=-99,," + rt + ","
+						}
+					}
+					for _, v := range vals {
+						m := measureOf(v)
+						want, _ := violated(r.name, m, lo, hi)
+						if form == 4 && k.name == "string" {
+							continue // (phone would add a clause of its own)
+						}
+						for _, car := range []carrier.Kind{carrier.Var, carrier.StructTag, carrier.StructRM, carrier.Map, carrier.UrlEsc} {
+							if !carrier.Supports(car, v) {
+								continue
+							}
+							var errStr string
+							var isNil bool
+							pan, msg, site := runner.Guard(func() { errStr, isNil = carrier.Validate(car, v, list) })
+							c.Done(near(m, lo) || near(m, hi), 1)
+							det := map[string]interface{}{"rules": list, "carrier": car, "kind": k.name, "value": fmt.Sprint(v.Interface()), "expected_violated": want, "error": errStr}
+							if pan {
+								det["panic"] = msg
+								c.Violation("bound-spellings/panic@"+site, det)
+								continue
+							}
+							n := 0
+							if !isNil {
+								n = len(errparse.Split(errStr))
+							}
+							if (want && n != 1) || (!want && n != 0) {
+								what := "zero-padded-bound"
+								if form >= 3 {
+									what = "rule-behind-an-empty-entry"
+								} else if form == 0 {
+									what = "plain"
+								}
+								c.Outcome("bound-spellings-differs")
+								c.Violation(fmt.Sprintf("bound-spellings/%s/%s/%d-clauses-expected-%v", what, r.name, n, want), det)
+							} else {
+								c.Outcome("bound-spellings-ok")
 							}
 						}
 					}
